@@ -15,3 +15,4 @@ CFG = dict(
                 "because the default real clock is virtual inside a bubble.",
      assumptions=["testing/synctest virtual time and Wait() are correct", "ttl > 0 (ttl <= 0 is a documented programmer-misuse panic)"],
      timeout_quick=300, timeout_thorough=2400)
+CFG["rule"] += ' Added after independently written breaking changes: Bulk sizes: entry counts around powers of two (to 1025; thorough to 8193) with every split of short/long TTLs through Cleanup, Delete and Reset.'
